@@ -220,9 +220,10 @@ theorem all_scans_confined_traceql (cfg : Cfg) (c : TraceQL.Ctx) (h : TraceCfg c
   (plan_good cfg c h script s hs).confined
 
 /-- **all_scans_confined_traceql_tags.** The same for the tag-names statement (`PlanTagsV2`). -/
-theorem all_scans_confined_traceql_tags (cfg : Cfg) (c : TraceQL.Ctx) (h : TraceCfg cfg c) (script : TraceQL.Script) (s : Sel)
-    (hs : TraceQL.planTags c script = .ok s) : ∃ n, ∀ f, n ≤ f → confinedDeep cfg (winT c) f s = true :=
-  (planTags_good cfg c h script s hs).confined
+theorem all_scans_confined_traceql_tags (cfg : Cfg) (c : TraceQL.Ctx) (h : TraceCfg cfg c) (kvTable : String)
+    (hkv : cfg.kind kvTable = .index) (script : TraceQL.Script) (s : Sel)
+    (hs : TraceQL.planTags c kvTable script = .ok s) : ∃ n, ∀ f, n ≤ f → confinedDeep cfg (winT c) f s = true :=
+  (planTags_good cfg c h kvTable hkv script s hs).confined
 
 /-- **all_scans_confined_traceql_values.** … and for the tag-values statement (`PlanValuesV2`), both its forms: the
     key/value table scanned by the date range `[From − 30 min, To]`, or the attribute index restricted by the
@@ -370,9 +371,9 @@ theorem traceql_results_in_window (o : Oracles) (ao : AggOracles) (hp : TraceQL.
     (h : TraceQL.rootSel c script = .ok X) (hok : ∀ p ∈ script, TraceQL.SelOk p.1) (env : Env) (tr : Bytes) :
     (∃ r ∈ evalSelG o ao (d.toDb c) true env X, r.get "trace_id" = .str tr) ↔
       TraceQL.traceMatches o ao c (d.inWindow c) script tr = true := by
-  have hT := (TraceQL.root_traceSel o ao hp c d hr hcons script X h hok).rows [] env
+  have hT := (TraceQL.root_traceSel o ao hp c d (by rw [TraceQL.seen_noFilter d o c hr]; exact hcons) script X h hok).rows [] env
   have hX : X.addCols [] = X := by obtain ⟨ws, d', c', f, j, p, w, g, h', ob, l⟩ := X; simp [Sel.addCols]
-  rw [hX] at hT
+  rw [hX, TraceQL.seen_noFilter d o c hr] at hT
   rw [TraceQL.traceMatches_window]
   exact hT.mem tr
 
